@@ -11,6 +11,10 @@ class CellIdentifierRangeTokenTranslator(AbstractTranslator):
 
         start_cell, finish_cell = token.range
         range_ = excel.get_range(start_cell, finish_cell)
-        range_code = '[' + ','.join([CellTranslator.translate(i, excel, context) for i in range_]) + ']'
+        cell_codes = [CellTranslator.translate(i, excel, context) for i in range_]
+        if start_cell.row is None and start_cell.column == finish_cell.column:
+            # whole column: rows appended by set_cells after the translation are part of it
+            cell_codes.append(f'*self._rows_below({start_cell.title}, {start_cell.column}, {len(range_)})')
+        range_code = '[' + ','.join(cell_codes) + ']'
 
         return context.set_sub_cell(token.in_cell, range_code)
